@@ -73,6 +73,22 @@ def engine_replay(payload):
         drv.close()
 
 
+def strings_sec():
+    def run(tier, seed, rep):
+        import sec_strings
+        stats, mism, fails = sec_strings.strings_section(tier, seed)
+        # classify direct-function disagreements with the property's own oracle
+        for m in mism[:300]:
+            if 'fn' in m:
+                f = sec_strings.oracle_direct(m)
+                if f is not None:
+                    fails.append(f)
+                    if len(fails) >= 3:
+                        break
+        return stats, mism, fails[:3]
+    return run
+
+
 ENGINE_MODULES = ['PP.Model.Doc', 'PP.Model.Normalize', 'PP.Model.Layout', 'PP.Model.Render', 'PP.Spec.Lay',
                   'PP.Proofs.LayNormalize', 'PP.Proofs.Sound']
 
@@ -122,5 +138,14 @@ REGISTRY = {
         'replay': engine_replay,
         'rule': 'classic-algebra engine correspondence + the one-line-stability oracle evaluated on the implementation',
         'assumptions': ['the smart strategy\'s extra reason (a following deeper line overflowing) is stated but not characterised denotationally'],
+    },
+    'C02': {
+        'theorems': ['PP.C02.lines_join', 'PP.C02.lines_nonempty', 'PP.C02.budget_positive', 'PP.C02.quote_is_quote',
+                     'PP.C02.lines_count', 'PP.PyStr.go_join', 'PP.PyStr.go_nonempty'],
+        'modules': ['PP.Model.PyStr', 'PP.Proofs.StrLines', 'PP.Props.C02'],
+        'sections': [{'name': 'strings', 'run': strings_sec()}],
+        'rule': 'string functions called directly (exhaustive over an adversarial alphabet) and the evaluator of pretty_str through the layout engine',
+        'assumptions': ['str.isprintable, \\w and \\s classification of each character are inputs to the model (computed by CPython in the harness); theorems hold for all values of those bits',
+                        'repr(str)/repr(bytes) are modelled (reprCharStr/reprCharBytes) and compared with CPython on every case'],
     },
 }
